@@ -57,6 +57,7 @@ type WriteEvent struct {
 	Data  []byte
 	Sync  bool
 	Phase string // "begin", "mid", "end"
+	Failed bool  // set at "end" when the write failed (injected fault)
 	N     int    // ordinal of this write on this FS (1-based)
 }
 
@@ -443,6 +444,11 @@ func (fl *File) WriteAt(p []byte, off int64) (int, error) {
 	if fault.Err != nil && fault.Short <= 0 {
 		done()
 		simrt.Count("fault.disk.writeerr", 1)
+		if f.OnWrite != nil {
+			ev.Phase = "end"
+			ev.Failed = true
+			f.OnWrite(ev)
+		}
 		return 0, pathErr("write", fl.path, fault.Err)
 	}
 	data := p
